@@ -21,7 +21,20 @@ def check_compound_derivatives(ctx, rep: Report, lower, prefix="C03-lower/"):
     definitions in the docstrings of ufl/operators.py."""
     from .c06 import cmp_scalar, levi
 
+    _lower = lower
+
+    def lower(tname, *ops, gdim=3):  # noqa: F811
+        try:
+            return _lower(tname, *ops, gdim=gdim)
+        except LiftRaise as e:
+            if tname == "Curl" and ops and ops[0].shape == (4,):
+                raise
+            return e, None
+
     def chk(tname, what, h, got, want):
+        if got is None:
+            rep.violation(prefix + tname, "ufl/algorithms/apply_algebra_lowering.py", what, f"lowering of {what} raises on a well-formed operand: {h.what}", scope=f"LowerCompoundAlgebra.{tname.lower()}")
+            return
         cmp_scalar(rep, prefix + tname, h.func, what, got, want, ctx)
 
     for gdim in (2, 3):
@@ -82,3 +95,294 @@ def check_compound_derivatives(ctx, rep: Report, lower, prefix="C03-lower/"):
         rep.violation(prefix + "Curl", lower("Curl", T.symbolic("a", (3,)), gdim=3)[0].func, "curl shape guard", "curl of a 4-vector is not rejected")
     except LiftRaise:
         rep.ok(prefix + "Curl", "ufl/algorithms/apply_algebra_lowering.py", "curl rejects shape (4,)")
+
+
+# ---------------------------------------------------------------------------- run
+import ast  # noqa: E402
+
+from .. import uflmodel  # noqa: E402
+from ..adlift import DT  # noqa: E402
+from ..lift import Obj  # noqa: E402
+from ..memokey import check_memo_keys  # noqa: E402
+from ..model import AnalysisError, norm  # noqa: E402
+from ..uflmodel import MI, new_index, node, terminal  # noqa: E402
+from ..uflsem import as_T, equal_T  # noqa: E402
+
+MOD = "ufl.algorithms.apply_derivatives"
+
+
+def make_ruleset(ctx, name, init_args, gdim, tdim):
+    """Harness whose `self` is produced by lifting the ruleset's own __init__."""
+    from .c02 import Harness
+
+    H = Harness(ctx, name, (), gdim=gdim, tdim=tdim)
+    dom = Obj("domain", geometric_dimension=gdim, topological_dimension=tdim)
+    dom.attrs["__class__"] = None
+    H.domain = dom
+    ip = H.ip
+    ip.overrides["extract_unique_domain"] = lambda expr, expand_mesh_sequence=True: dom
+    ip.overrides["is_cellwise_constant"] = lambda o: bool(as_T(o).tags.get("cellwise_constant", False))
+    K = terminal("K", (tdim, gdim), "JacobianInverse", cellwise_constant=False)
+    J = terminal("J", (gdim, tdim), "Jacobian", cellwise_constant=False)
+    H.K, H.J = K, J
+    ip.class_models["JacobianInverse"] = lambda d: K
+    ip.class_models["Jacobian"] = lambda d: J
+    prev = ip.isinstance_hook
+
+    def hook(x, cls_):
+        if getattr(cls_, "name", None) == "MeshSequence":
+            return False
+        return prev(x, cls_)
+
+    ip.isinstance_hook = hook
+    init = ctx.prog.lookup(H.cls, "__init__")
+    H.selfobj.attrs.pop("_var_shape", None)
+    ip.call_function(init, list(init_args), {}, self_obj=H.selfobj)
+    H.var_shape = tuple(H.selfobj.attrs["_var_shape"])
+    return H
+
+
+def rgrad_oracle(o, K, gdim, tdim):
+    """grad(o)[r, i] = sum_j K[j, i] * rgrad(o)[r, j]"""
+    rg = uflmodel.grad_named(o, tdim, "D")
+    data = {}
+    for c in itertools.product(*[range(d) for d in o.shape]):
+        for i in range(gdim):
+            acc = sym.ZERO
+            for j in range(tdim):
+                acc = sym.add(acc, sym.mul(K.get((j, i)), rg.get(c + (j,))))
+            data[(c + (i,), ())] = acc
+    return T(o.shape + (gdim,), (), (), data)
+
+
+def terminal_rules(ctx, rep):
+    from .c02 import cmp
+
+    rule = "C03-geo"
+    for gdim, tdim in ((2, 2), (3, 3), (3, 2)):
+        H = make_ruleset(ctx, "GradRuleset", [gdim], gdim, tdim)
+        ip = H.ip
+        if H.var_shape != (gdim,):
+            rep.violation(rule + "/init", ctx.prog.lookup(H.cls, "__init__"), "GradRuleset._var_shape", f"GradRuleset({gdim}) differentiates w.r.t. a variable of shape {H.var_shape}, expected ({gdim},)")
+            continue
+
+        def app(tname, o):
+            h = H.handler(tname)
+            try:
+                return h, ip.call_function(h.func, [o], {}, self_obj=H.selfobj)
+            except LiftRaise as e:
+                return h, e
+
+        def expect(tname, o, want, what):
+            h, got = app(tname, o)
+            if isinstance(got, LiftRaise):
+                rep.violation(rule + "/" + tname, h.func, what, f"{what}: rule raises on a representable input: {got.what}")
+                return
+            cmp(rep, rule + "/" + tname, h, f"{what} [gdim={gdim}, tdim={tdim}]", got, want, ctx)
+
+        def expect_raise(tname, o, what):
+            h, got = app(tname, o)
+            if isinstance(got, LiftRaise):
+                rep.ok(rule + "/" + tname, h.func, f"{what}: raises")
+            else:
+                rep.violation(rule + "/" + tname, h.func, what, f"{what}: expected an error, but a value is returned")
+
+        x = terminal("x", (gdim,), "SpatialCoordinate", cellwise_constant=False)
+        expect("SpatialCoordinate", x, uflsem.identity(gdim), "grad(x) = I")
+        X = terminal("X", (tdim,), "CellCoordinate", cellwise_constant=False)
+        expect("CellCoordinate", X, H.K, "grad(X) = K (Jacobian inverse)")
+        for shape in ((), (2,), (2, 2)):
+            f = terminal("f", shape, "Coefficient", cellwise_constant=False)
+            expect("Coefficient", f, uflmodel.grad_named(f, gdim, "d"), f"grad(coefficient of shape {shape}) = Grad(f)")
+            c = terminal("c", shape, "Coefficient", cellwise_constant=True)
+            expect("Coefficient", c, T.zero(shape + (gdim,)), f"grad(cell-wise constant coefficient of shape {shape}) = 0")
+            a = terminal("a", shape, "Argument", cellwise_constant=False)
+            expect("Argument", a, uflmodel.grad_named(a, gdim, "d"), f"grad(argument of shape {shape}) = Grad(a)")
+        # generic geometric quantity: constant -> 0; else K_ji rgrad_rj
+        g = terminal("n", (gdim,), "FacetNormal", cellwise_constant=True)
+        expect("FacetNormal", g, T.zero((gdim, gdim)), "grad(cell-wise constant geometric quantity) = 0")
+        g = terminal("n", (gdim,), "FacetNormal", cellwise_constant=False)
+        expect("FacetNormal", g, rgrad_oracle(g, H.K, gdim, tdim), "grad(varying geometric quantity) = K^T-transformed reference gradient")
+        detJ = terminal("detJ", (), "JacobianDeterminant", cellwise_constant=False)
+        expect("JacobianDeterminant", detJ, rgrad_oracle(detJ, H.K, gdim, tdim), "grad(detJ) via reference gradient")
+        expect("JacobianInverse", H.K, rgrad_oracle(H.K, H.K, gdim, tdim), "grad(K) via reference gradient")
+        Kc = terminal("K", (tdim, gdim), "JacobianInverse", cellwise_constant=True)
+        expect("JacobianInverse", Kc, T.zero((tdim, gdim, gdim)), "grad(cell-wise constant K) = 0")
+        # reference value of a terminal / reference grad
+        fobj = terminal("f", (2,), "Coefficient", cellwise_constant=False)
+        el = Obj("element", pullback=Obj("pullback", __class__=ctx.prog.get_class("ufl.pullback.ContravariantPiola")))
+        el.attrs["__class__"] = None
+        fobj.tags["ufl_element"] = lambda: el
+        rv = node(terminal("rv_f", (2,), "ReferenceValue"), "ReferenceValue", (fobj,), _ufl_is_in_reference_frame_=True, cellwise_constant=False)
+        expect("ReferenceValue", rv, rgrad_oracle(rv, H.K, gdim, tdim), "grad(reference_value(f)) via reference gradient")
+        rg = node(uflmodel.grad_named(rv, tdim, "D"), "ReferenceGrad", (rv,), _ufl_is_in_reference_frame_=True, cellwise_constant=False)
+        expect("ReferenceGrad", rg, rgrad_oracle(rg, H.K, gdim, tdim), "grad(reference_grad(rv)) via reference gradient")
+        bad = node(T.symbolic("q", (2,)), "Sum", (fobj, fobj))
+        bad.tags["_ufl_is_in_reference_frame_"] = False
+        rg_bad = node(uflmodel.grad_named(bad, tdim, "D"), "ReferenceGrad", (bad,), cellwise_constant=False)
+        expect_raise("ReferenceGrad", rg_bad, "grad(reference_grad(non reference-frame operand))")
+        rv_bad = node(T.symbolic("q", (2,)), "ReferenceValue", (bad,), cellwise_constant=False)
+        bad.tags["_ufl_is_terminal_"] = False
+        expect_raise("ReferenceValue", rv_bad, "grad(reference_value(non-terminal))")
+        # nesting: Grad(Grad(f)) allowed, Grad(non-terminal) rejected
+        f = terminal("f", (), "Coefficient", cellwise_constant=False)
+        gf = node(uflmodel.grad_named(f, gdim, "d"), "Grad", (f,))
+        expect("Grad", gf, uflmodel.grad_named(gf, gdim, "d"), "grad(grad(f)) = Grad(Grad(f))")
+        s = node(T.symbolic("s", ()), "Sum", (f, f))
+        gs = node(uflmodel.grad_named(s, gdim, "d"), "Grad", (s,))
+        expect_raise("Grad", gs, "grad(grad(non-terminal)) must be rejected")
+        for cls, fn in (("CellAvg", "cell_avg"), ("FacetAvg", "facet_avg")):
+            o = ip.overrides[fn](f)
+            expect(cls, o, T.zero((gdim,)), f"grad({fn}(f)) = 0")
+        # helper grad_to_reference_grad itself, ranks 0..2
+        fn_ = ctx.prog.get_function(MOD, "grad_to_reference_grad")
+        for shape in ((), (2,), (2, 3)):
+            o = terminal("o", shape, "Coefficient")
+            try:
+                got = ip.call_function(fn_, [o, H.K])
+            except LiftRaise as e:
+                rep.violation(rule + "/grad_to_reference_grad", fn_, f"grad_to_reference_grad shape {shape} gdim={gdim} tdim={tdim}", f"raises on a well-formed operand: {e.what}")
+                continue
+            ok, how, wit = equal_T(as_T(got), rgrad_oracle(o, H.K, gdim, tdim), rng=ctx.rng)
+            if ok:
+                rep.ok(rule + "/grad_to_reference_grad", fn_, f"shape {shape} gdim={gdim} tdim={tdim}: K[j,i]*rgrad[r,j] ({how})")
+            else:
+                rep.violation(rule + "/grad_to_reference_grad", fn_, f"grad_to_reference_grad shape {shape} gdim={gdim} tdim={tdim}", f"is not K[j,i]*ReferenceGrad(o)[r..,j]: {wit}", witness=wit)
+
+        # ---- ReferenceGradRuleset -------------------------------------------------
+        R = make_ruleset(ctx, "ReferenceGradRuleset", [tdim], gdim, tdim)
+        rip = R.ip
+        if R.var_shape != (tdim,):
+            rep.violation("C03-ref/init", ctx.prog.lookup(R.cls, "__init__"), "ReferenceGradRuleset._var_shape", f"variable shape {R.var_shape}, expected ({tdim},)")
+            continue
+
+        def rexpect(tname, o, want, what):
+            h = R.handler(tname)
+            try:
+                got = rip.call_function(h.func, [o], {}, self_obj=R.selfobj)
+            except LiftRaise as e:
+                if want is None:
+                    rep.ok("C03-ref/" + tname, h.func, f"{what}: raises")
+                else:
+                    rep.violation("C03-ref/" + tname, h.func, what, f"{what}: raises {e.what}")
+                return
+            if want is None:
+                rep.violation("C03-ref/" + tname, h.func, what, f"{what}: expected an error")
+                return
+            cmp(rep, "C03-ref/" + tname, h, f"{what} [gdim={gdim}, tdim={tdim}]", got, want, ctx)
+
+        rexpect("CellCoordinate", X, uflsem.identity(tdim), "reference_grad(X) = I")
+        rexpect("SpatialCoordinate", x, uflmodel.grad_named(x, tdim, "D"), "reference_grad(x) = ReferenceGrad(x)")
+        rexpect("ReferenceValue", rv, uflmodel.grad_named(rv, tdim, "D"), "reference_grad(rv(f)) = ReferenceGrad(rv(f))")
+        rexpect("ReferenceValue", rv_bad, None, "reference_grad(reference_value(non-terminal))")
+        rexpect("Coefficient", f, None, "coefficient not wrapped in ReferenceValue")
+        rexpect("Argument", terminal("a", (), "Argument"), None, "argument not wrapped in ReferenceValue")
+        rexpect("Grad", gf, None, "Grad in reference ruleset")
+        rexpect("ReferenceGrad", rg, uflmodel.grad_named(rg, tdim, "D"), "reference_grad(reference_grad(rv)) nests")
+        gq = terminal("n", (gdim,), "FacetNormal", cellwise_constant=False)
+        rexpect("FacetNormal", gq, uflmodel.grad_named(gq, tdim, "D"), "reference_grad(varying geometry) = ReferenceGrad")
+        gq = terminal("n", (gdim,), "FacetNormal", cellwise_constant=True)
+        rexpect("FacetNormal", gq, T.zero((gdim, tdim)), "reference_grad(constant geometry) = 0")
+
+
+def dispatcher_rules(ctx, rep):
+    """DerivativeRuleDispatcher: Grad/ReferenceGrad pick the dimension from the last axis; the Indexed
+    rule is the index-plumbing homomorphism."""
+    from .c02 import Harness, cmp
+
+    disp = ctx.prog.get_class(f"{MOD}.DerivativeRuleDispatcher")
+    tab = ctx.disp.dt_table(disp)
+    ctx.crosscheck_dispatch({"DerivativeRuleDispatcher"})
+    for tname, rs in (("Grad", "GradRuleset"), ("ReferenceGrad", "ReferenceGradRuleset"), ("VariableDerivative", "VariableRuleset"), ("CoefficientDerivative", "GateauxDerivativeRuleset"), ("BaseFormOperatorDerivative", "BaseFormOperatorDerivativeRuleset")):
+        h = tab.get(tname)
+        if h is None:
+            raise AnalysisError(f"dispatcher has no rule for {tname}")
+        src = norm(h.func.node)
+        ctor = [n for n in ast.walk(h.func.node) if isinstance(n, ast.Call) and norm(n.func) == rs]
+        if not ctor:
+            rep.violation("C03-dispatch", h.func, f"{tname} -> {rs}", f"the dispatcher rule for {tname} does not construct a {rs}")
+            continue
+        rep.ok("C03-dispatch", h.func, f"{tname} handled by a {rs}")
+        if tname in ("Grad", "ReferenceGrad"):
+            arg = norm(ctor[0].args[0]) if ctor[0].args else ""
+            assigns = {t.id: norm(st.value) for st in ast.walk(h.func.node) if isinstance(st, ast.Assign) for t in st.targets if isinstance(t, ast.Name)}
+            dim_src = assigns.get(arg, arg)
+            o_name = h.func.params()[1]
+            if dim_src == f"{o_name}.ufl_shape[-1]":
+                rep.ok("C03-dispatch/dim", h.func, f"{rs} dimension taken from the last axis of the {tname} node")
+            else:
+                rep.violation("C03-dispatch/dim", h.func, f"{rs}({arg}) with {arg} = {dim_src}", f"the derivative dimension of {tname} must be the length of its last axis ({o_name}.ufl_shape[-1]), found {dim_src}")
+    # terminals are returned unchanged, unknown Derivative types raise
+    for t in ctx.tm.concrete():
+        h = tab.get(t.name)
+        if t.traits["is_terminal"]:
+            ok = h is not None and len(h.func.node.body) <= 2 and norm(h.func.node.body[-1]) == f"return {h.func.params()[1]}"
+            (rep.ok if ok else rep.violation)(*(("C03-dispatch/terminal", h.func, f"{t.name} returned unchanged") if ok else ("C03-dispatch/terminal", disp, t.name, f"terminal {t.name} is not returned unchanged by the dispatcher")))
+        elif t.cls.is_subclass_of("Derivative") and not t.cls.is_subclass_of("CompoundDerivative") or t.name in ("Grad", "ReferenceGrad"):
+            if h is None or h.func.name == "reuse_if_untouched" or "reuse_if_untouched" in norm(h.func.node.body[-1]):
+                rep.violation("C03-dispatch/derivative", disp, t.name, f"derivative type {t.name} is passed through unexpanded by the dispatcher")
+            else:
+                rep.ok("C03-dispatch/derivative", h.func, f"{t.name} has an expansion rule or raises")
+    # Indexed rule of the dispatcher (same plumbing as the ruleset rule, plus reuse guard)
+    H = Harness(ctx, "DerivativeRuleDispatcher", ())
+    A = terminal("A", (2, 3))
+    for vs in ((), (2,)):
+        Ap = terminal("Ap", (2, 3) + vs)
+        i, j = new_index(), new_index()
+        for key, kd in (((i, j), "free,free"), ((0, j), "fixed,free"), ((1, 2), "fixed,fixed")):
+            o = uflmodel.m_indexed(A, MI(key))
+            h, got = H.apply("Indexed", o, [Ap, MI(key)])
+            want = uflsem.t_index(Ap, tuple(key) + (slice(None),) * len(vs))
+            cmp(rep, "C03-dispatch/Indexed", h, f"Indexed with expanded operand of extra rank {len(vs)}, {kd}", got, want, ctx)
+        o = uflmodel.m_indexed(A, MI((i, j)))
+        h, got = H.apply("Indexed", o, [A, MI((i, j))])
+        if got is o:
+            rep.ok("C03-dispatch/Indexed", h.func, "untouched operand: node reused")
+        else:
+            cmp(rep, "C03-dispatch/Indexed", h, "untouched operand", got, o, ctx)
+
+
+def run(ctx) -> Report:
+    from .c02 import calc_instances, check_tables
+    from .c06 import make_interp
+
+    rep = Report("C03")
+    check_tables(ctx, rep, "C03", ["GradRuleset", "ReferenceGradRuleset"])
+    lifted = calc_instances(ctx, rep, "GradRuleset", "C03", var_shapes=((2,),) + (((3,),) if ctx.thorough() else ()))
+    calc_instances(ctx, rep, "ReferenceGradRuleset", "C03", var_shapes=((2,),))
+    terminal_rules(ctx, rep)
+    dispatcher_rules(ctx, rep)
+    # compound differential operators
+    lca = ctx.prog.get_class("ufl.algorithms.apply_algebra_lowering.LowerCompoundAlgebra")
+    tab = ctx.disp.mf_table(lca)
+    ip = make_interp(ctx)
+
+    def lower(tname, *ops, gdim=3):
+        h = tab.get(tname)
+        if h is None:
+            raise AnalysisError(f"LowerCompoundAlgebra has no handler for {tname}")
+        ip.gdim = gdim
+        return h, ip.call_function(h.func, [None, None] + list(ops))
+
+    check_compound_derivatives(ctx, rep, lower, prefix="C03-lower/")
+    check_memo_keys(ctx, rep, "C03-key", [MOD], only_functions=None)
+    rep.require_min("C03-table", 270)
+    rep.require_min("C03-calc", 100)
+    rep.require_min("C03-geo", 60)
+    rep.require_min("C03-ref", 25)
+    rep.require_min("C03-lower", 20)
+    rep.require_min("C03-dispatch", 60)
+    rep.explanation = (
+        "GradRuleset / ReferenceGradRuleset: dispatch tables (exhaustiveness, arity, zero rules); every generic operator rule "
+        "lifted and compared with the formal derivative; every terminal rule lifted on symbolic terminals for (gdim,tdim) in "
+        "{(2,2),(3,3),(3,2)} with the ruleset object produced by lifting its own __init__, and compared with the oracle "
+        "(grad x = I, grad X = K, grad f = Grad f or 0 when cell-wise constant, geometry via K[j,i]*rgrad[r,j], nesting guards). "
+        "Lowering of div/nabla_div/nabla_grad/curl compared with the index definitions of operators.py; the dispatcher's choice "
+        "of ruleset and dimension checked on the AST."
+    )
+    rep.assumptions = [
+        "MeshSequence (mixed-domain) branches of the ReferenceValue/ReferenceGrad rules are not instantiated",
+        "is_cellwise_constant / extract_unique_domain are modelled as oracles on the symbolic terminals",
+        "reference semantics as in sa/uflmodel.py; Grad/ReferenceGrad are derivations on the term algebra",
+    ]
+    return rep
